@@ -1,6 +1,7 @@
 (* C19 — 64-bit integers survive untouched; number-as-string arithmetic is exact.
    (the decimal arithmetic theorems are added from Proofs/NasProofs.v) *)
-From Jawk Require Import Base F64 Json Reader Stream Printer Render PrinterProofs Go GoProofs RoundTrip.
+From Coq Require Import QArith Qabs.
+From Jawk Require Import Base F64 Json Reader Stream Printer Render PrinterProofs Go GoProofs RoundTrip Fn FunBase FunsNas NasProofs.
 
 (* integers in [-2^63, 2^64) pass through printing and parsing without any change of value: the parser never
    takes the floating-point detour for them, the printer prints their exact digits *)
@@ -24,3 +25,89 @@ Example C19_i64_min : values_of_bytes [45;57;50;50;51;51;55;50;48;51;54;56;53;52
 Proof. vm_compute. reflexivity. Qed.
 Example C19_2p53p1 : values_of_bytes [57;48;48;55;49;57;57;50;53;52;55;52;48;57;57;51]%N = ([JNum (NPos 9007199254740993)], 0%N).
 Proof. vm_compute. reflexivity. Qed.
+
+(* ---------- number-as-string arithmetic is exact: dec_value is the rational a decimal denotes ---------- *)
+
+Theorem C19_nas_add_exact :
+  forall a b : Z * Z, dec_value (dec_add a b) == dec_value a + dec_value b.
+Proof. exact dec_add_exact. Qed.
+Print Assumptions C19_nas_add_exact.
+
+Theorem C19_nas_sub_exact :
+  forall a b : Z * Z, dec_value (dec_sub a b) == dec_value a - dec_value b.
+Proof. exact dec_sub_exact. Qed.
+Print Assumptions C19_nas_sub_exact.
+
+Theorem C19_nas_mul_exact :
+  forall a b : Z * Z, dec_value (dec_mul a b) == dec_value a * dec_value b.
+Proof. exact dec_mul_exact. Qed.
+Print Assumptions C19_nas_mul_exact.
+
+Theorem C19_nas_abs_exact :
+  forall a : Z * Z, dec_value (dec_abs a) == Qabs (dec_value a).
+Proof. exact dec_abs_exact. Qed.
+Print Assumptions C19_nas_abs_exact.
+
+(* the comparison functions agree with exact rational comparison *)
+Theorem C19_nas_cmp_exact :
+  forall a b : Z * Z, dec_cmp a b = (dec_value a ?= dec_value b).
+Proof. exact dec_cmp_exact. Qed.
+Print Assumptions C19_nas_cmp_exact.
+
+Theorem C19_nas_normalize_value :
+  forall a : Z * Z, dec_value (dec_normalize a) == dec_value a.
+Proof. exact dec_normalize_value. Qed.
+Print Assumptions C19_nas_normalize_value.
+
+(* spelling independence: equal values have the same normal form *)
+Theorem C19_nas_normalize_canonical :
+  forall a b : Z * Z, dec_value a == dec_value b -> dec_normalize a = dec_normalize b.
+Proof. exact dec_normalize_canonical. Qed.
+Print Assumptions C19_nas_normalize_canonical.
+
+(* the functions themselves, on strings that parse *)
+Theorem C19_nas_add :
+  forall (s1 s2 : list N) (a b : Z * Z),
+    dec_parse s1 = Some a ->
+    dec_parse s2 = Some b ->
+    sem_nas FNas_add [jstr s1; jstr s2] = Some (Some (JStr (dec_show (dec_normalize (dec_add a b))))).
+Proof. exact sem_nas_add2. Qed.
+Print Assumptions C19_nas_add.
+
+Theorem C19_nas_mul :
+  forall (s1 s2 : list N) (a b : Z * Z),
+    dec_parse s1 = Some a ->
+    dec_parse s2 = Some b ->
+    sem_nas FNas_mul [jstr s1; jstr s2] = Some (Some (JStr (dec_show (dec_normalize (dec_mul a b))))).
+Proof. exact sem_nas_mul2. Qed.
+Print Assumptions C19_nas_mul.
+
+Theorem C19_nas_compare :
+  forall (f : fn) (t : comparison -> bool) (s1 s2 : list N) (a b : Z * Z),
+    nas_cmp_test f = Some t ->
+    dec_parse s1 = Some a ->
+    dec_parse s2 = Some b ->
+    sem_nas f [jstr s1; jstr s2] = Some (Some (JBool (t (dec_value a ?= dec_value b)))).
+Proof. exact sem_nas_compare. Qed.
+Print Assumptions C19_nas_compare.
+
+(* two spellings of the same values give the same result (leading or trailing zeros, exponents) *)
+Theorem C19_nas_spelling :
+  forall (f : fn) (s1 s2 s1' s2' : list N) (a b a' b' : Z * Z),
+    nas_binary f = true ->
+    dec_parse s1 = Some a ->
+    dec_parse s2 = Some b ->
+    dec_parse s1' = Some a' ->
+    dec_parse s2' = Some b' ->
+    dec_value a == dec_value a' ->
+    dec_value b == dec_value b' -> sem_nas f [jstr s1; jstr s2] = sem_nas f [jstr s1'; jstr s2'].
+Proof. exact sem_nas_spelling2. Qed.
+Print Assumptions C19_nas_spelling.
+
+(* what is printed reads back as the same value *)
+Theorem C19_nas_show_parse :
+  forall m sc : Z,
+    fits_i64 sc = true ->
+    exists d' : Z * Z, dec_parse (dec_show (m, sc)) = Some d' /\ dec_value d' == dec_value (m, sc).
+Proof. exact dec_show_parse. Qed.
+Print Assumptions C19_nas_show_parse.
